@@ -39,7 +39,7 @@ CONFIG = {
 }
 REQUIRED = ['pdf_rows_checked', 'logpdf_rows_checked', 'rows_zero_density', 'rows_positive_density', 'rows_boundary',
             'rvs_rows_checked', 'grad_points_checked', 'shape_checks', 'sel_sorted', 'sel_perm', 'sel_subset',
-            'specs_hierarchical', 'specs_custom_dist', 'grad_integer_typed_points_checked', 'rows_where_the_product_underflows_but_no_conditional_is_zero']
+            'specs_hierarchical', 'specs_custom_dist', 'grad_integer_typed_points_checked', 'grad_float32_points_checked', 'grad_mixed_inside_outside_matrices', 'rows_where_the_product_underflows_but_no_conditional_is_zero']
 
 NPTS = 40
 MARGIN = 0.05          # interior margin for gradient points (>= 100 x the reference step)
@@ -535,6 +535,22 @@ def run_case(ctx, case):
                 raise Violation('gradient-value', 'gradient_logpdf at the integer-typed point %s is %s but the derivative of the reference '
                                 'log-density there is %s' % (xi.astype(np.int64), gi, gri), wit(i))
             ctx.event('grad_integer_typed_points_checked')
+        # ... and at a float32 point (exactly representable in float64): same derivative as at the same point in float64
+        x32 = x.astype(np.float32)
+        xf = x32.astype(float)
+        nb = np.vstack([xf + s_ * MARGIN * np.eye(dim)[j] for j in range(dim) for s_ in (-1.0, 1.0)] + [xf])
+        lp_f = ref_logpdf_rows(spec, order, nb)
+        if np.all(np.isfinite(lp_f)) and lp_f[-1] > -400 and np.abs(xf).max() < 1e6:
+            g32 = np.asarray(P.gradient_logpdf(x32 if dim > 1 else x32[0], **kw), dtype=float).reshape(-1)
+            gr32 = np.zeros(dim)
+            for j in range(dim):
+                e = np.eye(dim)[j]
+                f = ref_logpdf_rows(spec, order, np.vstack([xf + 2 * HREF * e, xf + HREF * e, xf - HREF * e, xf - 2 * HREF * e]))
+                gr32[j] = (-f[0] + 8 * f[1] - 8 * f[2] + f[3]) / (12 * HREF)
+            if g32.size != dim or not np.all(np.abs(g32 - gr32) <= 1e-4 * np.abs(gr32) + 1e-5):
+                raise Violation('gradient-value', 'gradient_logpdf at the float32 point %s is %s but the derivative of the reference '
+                                'log-density there is %s' % (x32, g32, gr32), wit(i))
+            ctx.event('grad_float32_points_checked')
     if len(inter) >= 2:
         G = np.asarray(P.gradient_logpdf(X[inter] if dim > 1 else X[inter], **kw), dtype=float)
         if G.size != len(inter) * dim:
@@ -543,4 +559,19 @@ def run_case(ctx, case):
         if not np.allclose(G.reshape(len(inter), dim), G1, rtol=1e-7, atol=1e-7):
             raise Violation('gradient-rows', 'gradient of a matrix differs from the per-point gradients', {'matrix': G, 'points': G1})
         ctx.event('shape_checks')
+        # a matrix query in which rows outside the support come before, between and after the interior rows: the row of an
+        # interior point must still be that point's gradient (rows outside the support are not judged)
+        outs = [int(i) for i in np.where(valid & some_zero)[0][:3]]
+        if outs and dim > 1:
+            rows, where_inter = [], []
+            for j, i in enumerate(inter):
+                rows.append(X[outs[j % len(outs)]])
+                where_inter.append(len(rows))
+                rows.append(X[i])
+            rows.append(X[outs[0]])
+            Gm = np.asarray(P.gradient_logpdf(np.array(rows), **kw), dtype=float)
+            if Gm.shape != (len(rows), dim) or not np.allclose(Gm[where_inter], G1, rtol=1e-7, atol=1e-7):
+                raise Violation('gradient-rows', 'gradient of a matrix with rows inside and outside the support: the rows of the interior points '
+                                'differ from the per-point gradients', {'matrix': Gm, 'interior_rows': where_inter, 'points': G1})
+            ctx.event('grad_mixed_inside_outside_matrices')
     ctx.nontrivial((dim >= 2 or hier) and nz > 0 and npos > 0)
